@@ -109,7 +109,9 @@ def gen_lookup_ops(rng, nops, stack):
         if r < 0.30:
             p = par(); ops.append('sp %d %d %d %s' % (nsp, rng.choice(ms), c, p))
             # whoever the parent turns out to be, it must outlive the child: remember every candidate
-            cands = ([int(p)] if p not in 'cr' else []) + (entered[-1:] if p == 'c' else [])
+            # (a contextual parent is the innermost entered span THAT EXISTS: a span the stack's filters rejected was never created,
+            #  so any entered span may turn out to be the parent)
+            cands = ([int(p)] if p not in 'cr' else []) + (list(entered) if p == 'c' else [])
             for q in cands: kids.setdefault(q, set()).add(nsp)
             nsp += 1
         elif r < 0.55: ops.append('ev %d %d %s' % (rng.choice(me), c, par()))
@@ -163,6 +165,10 @@ _a = Stream('hist', 'h_layers', gen=gen, nontrivial=nontrivial, spec_mode='spec'
 _b = Stream('probe', 'h_layers', gen=gen_probe, nontrivial=nontrivial, spec_mode='spec')
 _c = Stream('chain', 'h_chain', mode='modelchain', gen=gen_chain, nontrivial=nontrivial, spec_mode='spec')
 _l = Stream('lookup', 'h_lookup', mode='modellookup', gen=gen_lookup, nontrivial=nontrivial_lookup, spec_mode='speclookup')
+def _valid_lookup(case):
+    import importlib
+    return importlib.import_module('checks.C06')._valid_evparent(case)
+_l.valid_case = _valid_lookup
 
 def _split_ops(case):
     return case
